@@ -659,6 +659,14 @@ def gen_edit(rng, ws, kinds=None):
     srcs = src_files_of(ws, l)
     if k == "content" and srcs:
         p = rng.choice(srcs)
+        if rng.random() < 0.06:
+            n = rng.choice([1023, 1024, 4097, 65537])
+            ws["files"][p] = "B" * n + "%d\n" % rng.randint(0, 9)
+            return ws, [], "content of %s (%d bytes)" % (p, n)
+        if rng.random() < 0.15 and len(ws["files"][p]) > 1:
+            c = ws["files"][p]
+            ws["files"][p] = c[:-2] + ("x" if c[-2] != "x" else "y") + "\n"     # differs by one byte
+            return ws, [], "content of %s (one byte)" % p
         ws["files"][p] = "w%d\n" % rng.randint(100, 999)
         return ws, [], "content of %s" % p
     if k == "addfile":
@@ -702,7 +710,7 @@ def gen_edit(rng, ws, kinds=None):
             return ws, [], "drop output of %s" % l
         return None
     if k == "fp":
-        t["fp"] = {"k": "v%d" % rng.randint(4, 99)} if rng.random() < 0.8 else {}
+        t["fp"] = {rng.choice(["k", "platform", "no-cache", "K"]): "v%d" % rng.randint(4, 99)} if rng.random() < 0.8 else {}
         return ws, [], "fingerprint of %s" % l
     idx = labels.index(l)
     order = sorted(labels, key=lambda x: int(ws["targets"][x]["name"][1:]))
@@ -827,6 +835,7 @@ def gen_history(rng, family="mixed", nsteps=None, full=False, minimal=None):
     ws = gen_ws(rng, **kw)
     hist = {"ws": ws, "algo": rng.choice(["xxh3", "sha256"]), "steps": [], "tags": [family]}
     cur = ws
+    versions = [ws]
     minimal = family.startswith("minimal") if minimal is None else minimal
 
     def build(patterns=None, **fl):
@@ -862,6 +871,31 @@ def gen_history(rng, family="mixed", nsteps=None, full=False, minimal=None):
             hist["steps"].append({"k": "taint", "patterns": [l] if rng.random() < 0.8 else ["//..."]})
             build()
             continue
+        if family == "wipe" and r < 0.75:
+            # fresh-checkout shape: every declared output disappears (files only, directories of file outputs stay),
+            # or the sources go back to an earlier version (outputs in the workspace are then stale w.r.t. the cache hit)
+            if r < 0.45 or len(versions) < 2:
+                writes = [[pth, None] for pth in sorted(all_out_paths(cur))]
+                hist["steps"].append({"k": "edit", "ws": cur, "writes": writes, "what": "tamper: wipe all declared outputs"})
+                if rng.random() < 0.6:
+                    e = gen_edit(rng, cur, ["salt", "content", "fp"])
+                    if e and wf(e[0]):
+                        hist["steps"].append({"k": "edit", "ws": e[0], "writes": e[1], "what": e[2]})
+                        cur = e[0]
+                        versions.append(cur)
+            else:
+                cur = versions[-2]
+                versions.append(cur)
+                hist["steps"].append({"k": "edit", "ws": cur, "writes": [], "what": "revert sources to an earlier version"})
+                if rng.random() < 0.5:
+                    l = rng.choice(sorted(cur["targets"]))
+                    e = gen_edit(rng, cur, ["salt"])
+                    if e:
+                        hist["steps"].append({"k": "edit", "ws": e[0], "writes": e[1], "what": e[2]})
+                        cur = e[0]
+                        versions.append(cur)
+            build()
+            continue
         if family == "disabled" and r < 0.4:
             build(enable_cache=False)
             continue
@@ -889,6 +923,7 @@ def gen_history(rng, family="mixed", nsteps=None, full=False, minimal=None):
         if e:
             hist["steps"].append({"k": "edit", "ws": e[0], "writes": e[1], "what": e[2]})
             cur = e[0]
+            versions.append(cur)
         build()
     return hist
 
